@@ -98,7 +98,7 @@ VDone(e) ==
 
 \* isolation: at quiescence every read has completed (the driver resumed every paused consumer before)
 VEnd(e) ==
-  IF \E r \in DOMAIN R : R[r].st = "run" THEN V("C04_Isolation_read_never_completed", R)
+  IF \E r \in DOMAIN R : R[r].st = "run" THEN V("C01_C04_Isolation_read_never_completed", R)
   ELSE IF \E r \in DOMAIN R : R[r].st = "stopping" THEN V("C04_stop_never_reported", R)
   ELSE V("", R)
 
